@@ -9,7 +9,8 @@ from .common import A, Imp, timing_ok
 
 @contract('mosromgr.moselements._get_story_offsets')
 class GetStoryOffsets(Contract):
-    props = ('C12', 'C15', 'C16')
+    props = ()
+    body_proved = False      # loop proof pending (C16)
 
     def requires(self, cx):
         v = cx.a['all_stories']
